@@ -288,7 +288,8 @@ pub fn suite_faults(ctx: &Ctx, thorough: bool) {
                 cases.push((add_q(q), ErrKind::InvalidQualifier, "qualifier fault"));
             }
             if !t.quals.iter().any(|(k, _)| k.eq_ignore_ascii_case("checksum")) {
-                for c in ["checksum=sha1", "checksum=sha1:abc", "checksum=sha1:zz", "checksum=a:00,A:11", "CHECKSUM=a:00,,b:11", "checksum=%C7%85:00,%C7%86:11"] {
+                for c in ["checksum=sha1", "checksum=sha1:abc", "checksum=sha1:zz", "checksum=a:00,A:11", "CHECKSUM=a:00,,b:11", "checksum=%C7%85:00,%C7%86:11",
+                          "checksum=%C3%86A:00,%C3%A6a:11", "checksum=A%C3%86:00,a%C3%A6:11", "checksum=x%C3%86Y:00,X%C3%A6y:11", "checksum=a:00,b:11,a:22", "checksum=a:0"] {
                     cases.push((add_q(c), ErrKind::InvalidQualifier, "malformed checksum"));
                 }
             }
